@@ -148,7 +148,14 @@ func (t *tmHeimdallRouter) build(f *tmFam, d *tmHdr) (*tmBuilt, bool) {
 			bid = ptypes.BlockID{Hash: hash, PartsHeader: ptypes.PartSetHeader{Total: 1, Hash: parts[:]}}
 		case 'o':
 			bid = ptypes.BlockID{Hash: tmArb("other-block"), PartsHeader: ptypes.PartSetHeader{Total: 1, Hash: parts[:]}}
+		case 't':
+			tr := tmReadTracked(f.db)
+			if !tr.ok {
+				return nil, false
+			}
+			bid = ptypes.BlockID{Hash: tr.block, PartsHeader: ptypes.PartSetHeader{Total: 1, Hash: parts[:]}}
 		}
+		b.commitForHeader = bytes.Equal(bid.Hash, hash) && d.cheight == d.height
 		commit = &ptypes.Commit{BlockID: bid}
 		made := make([]*ptypes.CommitSig, len(d.slots))
 		for i, s := range d.slots {
